@@ -111,3 +111,67 @@ var X I
 //
 //go:noinline
 func CallDo(x interface{}, p *Node) string { return X.Do(x, p) }
+
+// OF is F's origin placeholder (its body is overwritten by goom).
+//
+//go:noinline
+func OF(a int, s string) int {
+	x := a + len(s)
+	x = x*3 + 7
+	if x == 1000 {
+		x++
+	}
+	x = x*4 + 8
+	if x == 1001 {
+		x++
+	}
+	x = x*5 + 9
+	if x == 1002 {
+		x++
+	}
+	x = x*6 + 10
+	if x == 1003 {
+		x++
+	}
+	x = x*7 + 11
+	if x == 1004 {
+		x++
+	}
+	x = x*8 + 12
+	if x == 1005 {
+		x++
+	}
+	return x
+}
+
+//go:noinline
+func hidden(p *Node, x interface{}) int {
+	n := 500
+	if p != nil {
+		n += p.Val
+	}
+	if x != nil {
+		n++
+	}
+	return n
+}
+
+// CallHidden calls the unexported function.
+//
+//go:noinline
+func CallHidden(p *Node, x interface{}) int { return hidden(p, x) }
+
+// Pkg is this package's import path.
+const Pkg = "verifh/targets/c19t"
+
+// Variables mocked by the Var scenarios.
+var (
+	VarNode   *Node
+	VarAny    interface{} = 1
+	varHidden Hidden      = Hidden{a: 1, b: "v"}
+)
+
+// ReadVarHidden reads the unexported variable.
+//
+//go:noinline
+func ReadVarHidden() Hidden { return varHidden }
